@@ -39,6 +39,7 @@ type Case struct {
 	PauseMs   int    `json:"pause_ms,omitempty"`
 	FailAt    []int  `json:"fail_at,omitempty"`
 	AfterSec  int64  `json:"after_sec,omitempty"` // level 1: the After filter (0 = zero time)
+	Transient bool   `json:"transient,omitempty"` // level 2: only the write after Budget successful ones fails, later writes succeed again
 	Budget    int    `json:"budget"`              // level 2: successful writes before failing (-1 = never fails)
 	Items     []Item `json:"items"`
 	// preconditions of the grouping oracle, as known to the generator
@@ -322,7 +323,7 @@ func genL1(r *hutil.Rand, i int) Case {
 
 // ---------- level 2 ----------
 
-var l2Modes = []string{"clean", "badline", "writefail", "writefail", "badlogin", "badpid", "latelogin-writefail", "badline"}
+var l2Modes = []string{"clean", "badline", "writefail", "writefail", "badlogin", "badpid", "latelogin-writefail", "badline", "writefail-once"}
 
 func genL2(r *hutil.Rand, i int) Case {
 	mode := l2Modes[i%len(l2Modes)]
@@ -368,7 +369,7 @@ func genL2(r *hutil.Rand, i int) Case {
 		block(1+r.Intn(2), func() string { return "4294967295" })
 	}
 	single("4294967295", sshdPid, "CRED_ACQ")
-	late := mode == "latelogin-writefail" || r.Chance(1, 4)
+	late := mode == "latelogin-writefail" || (mode != "writefail-once" && r.Chance(1, 4))
 	if !late {
 		items = append(items, mkLogin(sshdPid, ""), mkLogin(90000+r.Intn(1000), ""))
 	}
@@ -406,6 +407,14 @@ func genL2(r *hutil.Rand, i int) Case {
 		items = insertAt(items, r.Intn(len(items)+1), malformed(r, e))
 	case "writefail", "latelogin-writefail":
 		c.Budget = r.Intn(nSess)
+	case "writefail-once":
+		// a transient failure: the sink rejects exactly one write (at the session's first event half of the time)
+		c.Transient = true
+		if r.Bool() {
+			c.Budget = 0
+		} else {
+			c.Budget = r.Intn(nSess)
+		}
 	case "badlogin":
 		items = insertAt(items, r.Intn(len(items)+1), mkLogin(70000+r.Intn(100), hutil.Pick(r, []string{"zeropid", "nocred", "nosource"})))
 	}
